@@ -626,8 +626,20 @@ func c06Job(shard, nshards, maxPools, maxBusy int) Job {
 	}}
 }
 
+// c06BaseCfg: a configuration with one coarse node subnet covering n1..n3; the instance serves a request under it (and so has
+// seen the nodes) before the configuration under test is loaded at run time.
+var c06BaseCfg = "[" + poolJSON([]string{"10.0.0.0/16"}, []string{"10.99.0.1"}, "10.99.0.0/24", "10.99.0.254", 0) + "]"
+
+var c06FromBase bool
+
 func c06Case(r *caseResult, scen string, ci int, cfg world.Config, ips, busy []string, pd c06Pod) {
 	c06CaseR(r, scen, ci, cfg, ips, busy, pd, false)
+	if len(busy) <= 1 && pd.Holder == "" && pd.Reserve == "" && pd.Reserve2 == "" {
+		// the same case on an instance that ran under another configuration before and loads this one at run time
+		c06FromBase = true
+		c06CaseR(r, scen, ci, cfg, ips, busy, pd, false)
+		c06FromBase = false
+	}
 	if (len(busy) > 0 || pd.Holder != "" || pd.Reserve != "") && pd.Reserve2 == "" {
 		// the same case after a restart of galaxy-ipam (tables rebuilt from the store)
 		c06CaseR(r, scen, ci, cfg, ips, busy, pd, true)
@@ -646,10 +658,33 @@ func c06CaseR(r *caseResult, scen string, ci int, cfg world.Config, ips, busy []
 	defer func() { vmap.Rotation = 0 }()
 	desc := fmt.Sprintf("config#%d %s busy=%v pod=%s restart=%v", ci, cfg.Pools, busy, pd.Name, restart)
 	class := strings.SplitN(pd.Name, ":", 2)[0]
+	fromBase := c06FromBase
+	if fromBase {
+		desc += " (loaded at run time over a configuration with one coarse node subnet)"
+	}
 	build := func() *world.World {
-		w := world.New(cfg)
-		if err := w.Start(); err != nil {
-			panic(err)
+		var w *world.World
+		if fromBase {
+			base := cfg
+			base.Pools = c06BaseCfg
+			w = world.New(base)
+			if err := w.Start(); err != nil {
+				panic(err)
+			}
+			seen := world.PodSpec{Name: "seen-0", NS: "ns"}
+			w.CreatePod(seen)
+			_, _ = w.Filter(seen.Key())
+			w.DeletePod(seen.Key())
+			w.Pending = nil
+			w.ConfigMap = cfg.Pools
+			if err := w.Reload(); err != nil {
+				panic(err)
+			}
+		} else {
+			w = world.New(cfg)
+			if err := w.Start(); err != nil {
+				panic(err)
+			}
 		}
 		w.SetStatefulSet("ns", "a", 1)
 		w.SetDeployment("ns", "d", 1)
@@ -678,7 +713,7 @@ func c06CaseR(r *caseResult, scen string, ci int, cfg world.Config, ips, busy []
 	offered, ferr := w.Filter(pd.Spec.Key())
 	r.evals++
 	sort.Strings(offered)
-	r.distinct[hashOf(ci, busy, pd.Name, restart, offered, ferr != nil)] = true
+	r.distinct[hashOf(ci, busy, pd.Name, restart, fromBase, offered, ferr != nil)] = true
 	if len(r.samples) < 3 && r.evals%311 == 1 {
 		r.samples = append(r.samples, fmt.Sprintf("%s -> offered %v err=%v", desc, offered, ferr))
 	}
